@@ -18,7 +18,7 @@
 From Coq Require Import List ZArith Bool.
 From TskVerif Require Import Base.Common C03.Model C03.Spec C03.AlleleProofs C03.PaintProofs
      C03.DecodeProofs C03.HistoryProofs C03.RuleProofs C03.TotalProofs C03.DfsTotalProofs C03.PyViews C03.ViewsProofs
-     C03.MutParents C03.ParentProofs C03.InitProofs.
+     C03.MutParents C03.ParentProofs C03.InitProofs C03.SeekProofs C03.SampleListProofs.
 Import ListNotations.
 Open Scope Z_scope.
 
@@ -255,3 +255,85 @@ Theorem variant_init_index_map : forall flags ts_samples ts_map ss alleles imput
   index_map_rep (zlen flags) ss (v_index_map v) /\
   (impute = false -> forall u, In u ss -> exists fl, get flags u = Ok fl /\ Z.odd fl = true).
 Proof. exact variant_init_index_map_l. Qed.
+
+(* ---- final round ---------------------------------------------------------------------------- *)
+
+(* The seek inside tsk_variant_decode.  [seek cur x] is tsk_tree_seek from ANY current tree
+   state, with C06's contract as hypothesis (the result represents the forest par_at x);
+   [run o hist] is the variant object after an arbitrary history of decode calls (successful or
+   failed, any order), [on_error] whatever a failed decode leaves in the genotypes array.
+   After any history, decode(site at position x) returns the rule evaluated on the tree of THAT
+   site: MISSING exactly under the missing-data condition at x, else the first index of the
+   state of the nearest mutation in par_at x. *)
+Theorem decode_after_history_follows_rule :
+  forall (seek : tree -> Z -> tree) (par_at : Z -> Z -> option Z) (on_error : vstate -> vstate)
+         fuel v N h,
+  (forall cur x, tree_rep (par_at x) fuel (seek cur x) v N) ->
+  (forall x u, depth_le (par_at x) h u) ->
+  (forall st, length (st_genotypes (on_error st)) = length (st_genotypes st)) ->
+  forall hist o0 x s,
+  wf_obj v o0 -> Forall (fun p => muts_in_range N (snd p)) hist ->
+  muts_in_range N s -> order_ok (par_at x) (s_mutations s) ->
+  forall g al hm, snd (decode_obj seek on_error fuel v (run seek on_error fuel v o0 hist) (x, s)) = Ok (g, al, hm) ->
+  forall k u, get (v_samples v) k = Ok u ->
+  exists r, nearest (par_at x) (s_mutations s) u r /\
+    let missing := v_impute v = false /\ isolated (par_at x) u /\ has_mut_on (s_mutations s) u = false in
+    (missing /\ get g k = Ok MISSING) \/
+    (~ missing /\ get g k = Ok (allele_index al (state_of (s_ancestral s) r)) /\
+     get al (allele_index al (state_of (s_ancestral s) r)) = Ok (state_of (s_ancestral s) r)).
+Proof. exact decode_after_history_follows_rule_l. Qed.
+
+(* ... and two arbitrary histories (different tree positions, different leftover state) give the
+   same result for the same site: decode is independent of the tree position as well as of the
+   variant state. *)
+Theorem decode_history_and_position_independent :
+  forall (seek : tree -> Z -> tree) (par_at : Z -> Z -> option Z) (on_error : vstate -> vstate)
+         fuel v N h,
+  (forall cur x, tree_rep (par_at x) fuel (seek cur x) v N) ->
+  (forall x u, depth_le (par_at x) h u) ->
+  (forall st, length (st_genotypes (on_error st)) = length (st_genotypes st)) ->
+  forall hist1 o1 hist2 o2 x s r1 r2,
+  wf_obj v o1 -> wf_obj v o2 ->
+  Forall (fun p => muts_in_range N (snd p)) hist1 -> Forall (fun p => muts_in_range N (snd p)) hist2 ->
+  muts_in_range N s ->
+  snd (decode_obj seek on_error fuel v (run seek on_error fuel v o1 hist1) (x, s)) = Ok r1 ->
+  snd (decode_obj seek on_error fuel v (run seek on_error fuel v o2 hist2) (x, s)) = Ok r2 -> r1 = r2.
+Proof. exact decode_history_and_position_independent_l. Qed.
+
+(* The sample-list component of tree_rep from the LOCAL linked-array invariant that
+   tsk_tree_update_sample_lists maintains (list of a node = its own sample index + the lists of
+   its children), the child chains, the index map and a rank growing towards the roots (node
+   time).  [sample_lists_local_b] (sound) is evaluated on the real arrays per case. *)
+Theorem sample_lists_from_local : forall par fuel t N samples map (rank : Z -> nat),
+  par_dom par N -> kids_rep par fuel t N -> index_map_rep N samples map ->
+  (forall c p, par c = Some p -> (rank c < rank p)%nat) ->
+  sample_lists_local fuel t N map ->
+  sample_lists_rep par fuel t N samples.
+Proof. exact sample_lists_from_local_l. Qed.
+
+(* Error classes of haplotypes()/alignments(): the per-site column fails only with TypeError (an
+   allele that is not a single character) or ValueError (an allele equal to the missing-data
+   character), decided by the first offending entry of var.alleles. *)
+Theorem hap_column_error_class : forall mdc g al hm c,
+  PyViews.hap_column mdc (g, al, hm) = Err c ->
+  exists pre a post codes, PyViews.py_alleles (g, al, hm) = pre ++ a :: post /\
+    PyViews.mapM (PyViews.allele_code mdc) pre = Ok codes /\
+    ((c = PyViews.PY_TYPE_ERROR /\ exists s, a = Some s /\ length s <> 1%nat) \/
+     (c = PyViews.PY_VALUE_ERROR /\ a = Some [mdc])).
+Proof. exact hap_column_error_class_l. Qed.
+
+(* Variant.frequencies() over Q: every allele of the list is mapped to carriers / number of
+   requested nodes *)
+Theorem frequencies_correct : forall g al hm a,
+  In a al -> 0 < zlen g ->
+  PyViews.fget (PyViews.frequencies_model false (g, al, hm)) (Some a)
+  = Some (Some (QArith_base.Qmake (PyViews.carriers (g, al, hm) a) (Z.to_pos (zlen g)))).
+Proof. exact frequencies_correct_l. Qed.
+
+(* Variant.copy(): the copy shows what the variant showed, and refuses to decode *)
+Theorem copy_spec : forall v g al hm s,
+  let c := PyViews.restricted_copy v (g, al, hm) in
+  PyViews.c_samples c = v_samples v /\ PyViews.c_genotypes c = g /\ PyViews.c_alleles c = al /\
+  PyViews.c_has_missing c = hm /\
+  PyViews.decode_copy c s = Err PyViews.ERR_VARIANT_CANT_DECODE_COPY.
+Proof. exact copy_spec_l. Qed.
